@@ -1,7 +1,8 @@
 (* C08: work accounting of the thread-pool core model.  Invariant over ALL accepted event sequences:
      workRemaining = #queued + #popped-or-executing-not-yet-decremented + sum localWorkDone + pending decrements
-                     + additions not yet placed + LEAKED,
-   where LEAKED counts the ring / steal-ring drain pops of resizeLocked and ~ThreadPool (task() with no decrement). *)
+                     + additions not yet placed.
+   (Before the fix 8892b78 the ring / steal-ring drain loops of resizeLocked and ~ThreadPool ran task() with no decrement and the
+   invariant needed a ghost LEAKED term; the drain pops are now accounted like executeNext.) *)
 From Coq Require Import ZArith List Bool Lia.
 From DV Require Import Model.PoolModel Proofs.PoolProofs.
 Import ListNotations.
@@ -12,11 +13,7 @@ Definition held_acc (h : option (id * hkind)) : Z := match h with Some (_, k) =>
 Definition th_acc (th : thread) : Z :=
   credit th + held_acc (held th) + sumf (fun x => counted (snd x)) (exec th) + lwd th + owed th.
 Definition acc (s : state) : Z :=
-  len (central s) + sumf len (rings s) + sumf len (steals s) + sumf th_acc (threads s) + leaked s.
-
-Definition is_drain (e : event) : bool := match e with EDrainRing _ _ | EDrainSteal _ _ => true | _ => false end.
-Fixpoint drains (tr : list (nat * event)) : Z :=
-  match tr with [] => 0 | (_, e) :: r => (if is_drain e then 1 else 0) + drains r end.
+  len (central s) + sumf len (rings s) + sumf len (steals s) + sumf th_acc (threads s).
 
 Ltac simp_acc :=
   cbn [th_acc held_acc counted sumf snd fst
@@ -41,16 +38,15 @@ Section C08.
   Local Notation accepts := (accepts rcap scap share).
 
   Lemma accept_acc_delta s tid e s' : accept s tid e = Some s' ->
-    wr s' - acc s' = wr s - acc s /\ leaked s' = leaked s + (if is_drain e then 1 else 0).
+    wr s' - acc s' = wr s - acc s.
   Proof.
     intros H. unfold accept, accept_rz, getT in H.
     set (th := lget th0 tid (threads s)) in *.
     destruct (trole th) eqn:Hrole; try discriminate H.
-    all: destruct e; cbn [is_rz_event is_drain] in *; inv_guards H; subst s'; unfold acc; simp_proj;
+    all: destruct e; cbn [is_rz_event] in *; inv_guards H; subst s'; unfold acc; simp_proj;
       rewrite ?(sumf_lset len [] (eq_refl _)), ?(sumf_lset th_acc th0 (eq_refl _)), ?sumf_app, ?(sumf_repeat0 len [] _ (eq_refl _));
       fold th; simp_proj.
-    all: split; [|lia].
-    all: repeat match goal with |- context[match ?k with KInline => _ | KLocal => _ | KExec => _ | KDrain => _ end] => destruct k end.
+    all: repeat match goal with |- context[match ?k with KInline => _ | KLocal => _ | KExec => _ end] => destruct k end.
     all: unfold th_acc in *; simp_acc; bool_hyps; rw_eqs; simp_acc; pose_len; len_norm.
     all: repeat match goal with |- context[if ?b then _ else _] => destruct b end; simp_acc.
     all: lia.
@@ -59,19 +55,16 @@ Section C08.
   Lemma acc_init n0 : wr (init share n0) = acc (init share n0).
   Proof. unfold acc, init. cbn. rewrite !(sumf_repeat0 len [] _ (eq_refl _)). reflexivity. Qed.
 
-  Lemma accepts_acc tr : forall s s', accepts s tr = Some s' ->
-    wr s' - acc s' = wr s - acc s /\ leaked s' = leaked s + drains tr.
+  Lemma accepts_acc tr : forall s s', accepts s tr = Some s' -> wr s' - acc s' = wr s - acc s.
   Proof.
-    induction tr as [|[t e] r IH]; cbn [PoolModel.accepts drains]; intros s s' H; [injection H as <-; lia|].
+    induction tr as [|[t e] r IH]; cbn [PoolModel.accepts]; intros s s' H; [injection H as <-; lia|].
     destruct (accept s t e) as [s1|] eqn:E; [|discriminate].
-    destruct (accept_acc_delta _ _ _ _ E) as [D1 D2]. destruct (IH _ _ H) as [I1 I2]. lia.
+    pose proof (accept_acc_delta _ _ _ _ E). pose proof (IH _ _ H). lia.
   Qed.
 
   (* the accounting invariant, for all accepted event sequences *)
-  Theorem accounting n0 tr s : accepts (init share n0) tr = Some s -> wr s = acc s /\ leaked s = drains tr.
-  Proof.
-    intros H. destruct (accepts_acc _ _ _ H) as [A B]. pose proof (acc_init n0). unfold init in B at 1. cbn [leaked] in B. lia.
-  Qed.
+  Theorem accounting n0 tr s : accepts (init share n0) tr = Some s -> wr s = acc s.
+  Proof. intros H. pose proof (accepts_acc _ _ _ H). pose proof (acc_init n0). lia. Qed.
 
   Lemma idle_thread_acc th : idle_thread th = true -> th_acc th = 0.
   Proof.
@@ -82,7 +75,7 @@ Section C08.
   Lemma sumf_all0 {A} (f : A -> Z) l : (forall x, In x l -> f x = 0) -> sumf f l = 0.
   Proof. induction l as [|x r IH]; cbn; intros H; [reflexivity|]. rewrite (H x) by (left; reflexivity). rewrite IH by (intros; apply H; right; assumption). reflexivity. Qed.
 
-  Lemma quiescent_acc s : quiescent s = true -> acc s = leaked s.
+  Lemma quiescent_acc s : quiescent s = true -> acc s = 0.
   Proof.
     unfold quiescent, acc. intros H.
     apply andb_prop in H. destruct H as [H Ht]. apply andb_prop in H. destruct H as [H Hs]. apply andb_prop in H. destruct H as [Hc Hr].
@@ -94,27 +87,23 @@ Section C08.
     - intros x Hx. pose proof (proj1 (forallb_forall _ _) Hr x Hx) as E. apply nilb_true in E. subst. reflexivity.
   Qed.
 
-  (* at quiescence the counter equals the number of tasks that a resize / destructor drain ran without decrementing *)
-  Theorem wr_at_quiescence n0 tr s : accepts (init share n0) tr = Some s -> quiescent s = true -> wr s = drains tr.
-  Proof. intros H Q. destruct (accounting _ _ _ H) as [A B]. rewrite A, (quiescent_acc _ Q). exact B. Qed.
-
-  (* C08 holds on the complement of the finding's domain: histories without a ring / steal-ring drain pop *)
-  Theorem wr_zero_except n0 tr s : accepts (init share n0) tr = Some s -> drains tr = 0 -> quiescent s = true -> wr s = 0.
-  Proof. intros H D Q. rewrite (wr_at_quiescence _ _ _ H Q). exact D. Qed.
+  (* C08: at quiescence the counter is zero, for every history of submissions, waits and resizes *)
+  Theorem wr_zero_at_quiescence n0 tr s : accepts (init share n0) tr = Some s -> quiescent s = true -> wr s = 0.
+  Proof. intros H Q. rewrite (accounting _ _ _ H). apply quiescent_acc. exact Q. Qed.
 End C08.
 
-(* ---------- the faithful model violates C08: witness = the event trace of the REAL code on
-   "pool(4); TaskSet::scheduleBulk(2) (ring fast path); resize(2) before any worker pops; ~ThreadPool" (props/pool_common.py WITNESSES[0]) ---------- *)
+(* ---------- regression: the event trace of the REAL code (after the fix) on the former counterexample
+   "pool(4); TaskSet::scheduleBulk(2) (ring fast path); resize(2) before any worker pops" (props/pool_common.py WITNESSES[0]) ---------- *)
 Definition c08_witness : list (nat * event) :=
   [(1%nat,EWorkerBegin 0); (2%nat,EWorkerBegin 1); (3%nat,EWorkerBegin 2); (4%nat,EWorkerBegin 3); (0%nat,EAdd 2 3); (0%nat,ELoadNumRings 4 2);
    (0%nat,EGen 0); (0%nat,ERingPushEnd 0); (0%nat,EGen 1); (0%nat,ERingPushEnd 1); (0%nat,EResizeBegin 2); (0%nat,EStopAll); (0%nat,EWakeAll);
    (0%nat,ECentralDone 0); (0%nat,EJoinBegin); (1%nat,EWorkerEnd 0); (2%nat,EWorkerEnd 1); (3%nat,EWorkerEnd 2); (4%nat,EWorkerEnd 3);
-   (0%nat,EJoinDone); (0%nat,EDrainRing 0 0); (0%nat,EBodyBegin 0); (0%nat,EBodyEnd 0); (0%nat,ERingDone 0); (0%nat,EDrainRing 1 1);
-   (0%nat,EBodyBegin 1); (0%nat,EBodyEnd 1); (0%nat,ERingDone 1); (0%nat,ERingDone 2); (0%nat,ERingDone 3); (0%nat,EStealDone 0);
+   (0%nat,EJoinDone); (0%nat,EDrainRing 0 0); (0%nat,EBodyBegin 0); (0%nat,EBodyEnd 0); (0%nat,ESub 1 5); (0%nat,ERingDone 0); (0%nat,EDrainRing 1 1);
+   (0%nat,EBodyBegin 1); (0%nat,EBodyEnd 1); (0%nat,ESub 1 5); (0%nat,ERingDone 1); (0%nat,ERingDone 2); (0%nat,ERingDone 3); (0%nat,EStealDone 0);
    (0%nat,EStoreNumRings 2); (0%nat,EStoreNumSteal 1); (0%nat,EStoreNumThreads 2); (0%nat,EThreadsStarted 2); (5%nat,EWorkerBegin 0);
    (6%nat,EWorkerBegin 1); (0%nat,EResizeEnd)].
 
-Lemma c08_refuted_witness :
+Lemma c08_regression_witness :
   exists s, accepts 16 32 8 (init 8 4) c08_witness = Some s /\ quiescent s = true /\ rz s = RIdle /\
-            done s = [1; 0] /\ wr s = 2.
+            done s = [1; 0] /\ wr s = 0.
 Proof. eexists. vm_compute. repeat split. Qed.
